@@ -53,7 +53,7 @@ def run(ctx):
             continue
         if res:
             kind, msg = res
-            ctx.violation(E.name, kind, msg, PL.case_replay(case, out), what=f"{E.name}: {msg}")
+            ctx.violation(E.name, kind, msg, PL.case_replay(case, out), what=f"{E.name}: {msg}", tags=PL.case_tags(case))
             continue
         bcases.append(PL.encode_batch(case, out))
         bmeta.append((case, out))
